@@ -44,8 +44,9 @@ ASSUMPTIONS = [
     "weight assignments are exhaustive over the stated alphabet only on graphs with <= 4 vertices (and {0,1} on 5 "
     "vertices in the thorough tier); larger meshes get three fixed periodic patterns over {0,1,2,5}",
     "the exported path polyline is compared as a set of coordinate segments / vertices with the returned paths",
-    "negative weights are outside the statement and not asked; a bare numpy integer as single target (instead of the documented "
-    "int) and a one-element collection of numpy integers for shortest_path_to_vertex_set are not asked",
+    "negative weights are outside the statement and not asked; vertex indices may be Python ints or numpy integers (bare as the "
+    "single target of shortest_path, or as members of any collection, one-element collections included); the start vertex is "
+    "always a Python int",
     "'arguments unchanged' compares what a caller can observe: list / tuple / numpy array element-wise in order (+ dtype, shape), "
     "set / frozenset / dict key view as sets, a weights dict by ==, an Attribute by len, stored keys and the value of every edge "
     "id, an ArrayAttribute by len and values; ints and one-shot generators (consumed by being read) are not compared; key order "
@@ -54,13 +55,13 @@ ASSUMPTIONS = [
     "objects passes that clause (control run on the spot); otherwise it counts as the ordinary failure",
 ]
 BOUNDS = {
-    "quick": "every start vertex of: GRAPH(<=4) 75 labelled graphs [lattice: FULL plan = 6 single-target forms, 4 multi-target "
+    "quick": "every start vertex of: GRAPH(<=4) 75 labelled graphs [lattice: FULL plan = 10/8 single-target forms (point-to-point / vertex set; int, numpy int, list, set, tuple, frozenset, list with a duplicate, generator, list of numpy ints, numpy array), 7/6 multi-target "
              "forms, all target subsets <=3, 5 weight modes, export both ways in 2 modes; generic: MID plan = 3/2 forms, 4 modes]; "
              "GRAPH(5) all 1024, lattice, LIGHT plan (subsets <=2, modes one/length/dict); SURF(<=4) all 66 x {lattice,generic} MID; "
              "SURF(5) 410 triangle complexes lattice LIGHT; TET(<=5) 27 generic LIGHT; grids 2..4 x 2..4 x {tri,tri2,quad,mixed} "
              "(every single target, every pair as vertex set, border); 92 manifold sub-complexes of the 3x3 tri grid; every "
              "weighting over {0,1,2,5} of every graph on <=3 vertices and over {0,1,5} on 4 vertices (4223 weighted graphs; whole "
-             "component as dict and Attribute, every vertex set of size <=2); HISTORIES (one targets object in 8 forms int/list/tuple/"
+             "component as dict and Attribute, every vertex set of size <=2); HISTORIES (one targets object in 9 forms int/numpy int/list/tuple/"
              "set/frozenset/dict keys/list of numpy ints/numpy array + one weights object per mesh and mode, starts = whole component "
              "+ first again, targets = every subset <=2 of the component + the whole component): GRAPH(<=4) 75 lattice [p2p-only in "
              "one/dict, set-only in length/Attribute, interleaved + border-only in all 5 modes], SURF(<=4) 66, 3 of "
@@ -117,9 +118,11 @@ STD4 = ["one", "length", "dict", "attr"]
 # single target, the whole component and every vertex set are asked in each of them); minor = weight modes in which
 # the proper multi-target subsets of shortest_path are asked too; export = weight modes in which
 # export_path_mesh=True is run as well (False is always run; no_vset_export: not for shortest_path_to_vertex_set)
-# "gen" = a one-shot generator, "npint" = a list of numpy integers, "nparr" = a numpy integer array
-PLAN_FULL = {"p2p_sub": 3, "vset_sub": 3, "p2p_1": ["int", "list", "set", "tuple", "frozenset", "list_dup", "gen", "npint"],
-             "p2p_k": ["list", "rlist", "set", "tuple", "gen", "npint", "nparr"], "vset_1": ["list", "set", "tuple", "frozenset", "list_dup", "gen"],
+# "gen" = a one-shot generator, "npint" = a list of numpy integers, "nparr" = a numpy integer array, "npscalar" = a bare numpy
+# integer as single target (shortest_path only, like "int")
+PLAN_FULL = {"p2p_sub": 3, "vset_sub": 3, "p2p_1": ["int", "npscalar", "list", "set", "tuple", "frozenset", "list_dup", "gen", "npint", "nparr"],
+             "p2p_k": ["list", "rlist", "set", "tuple", "gen", "npint", "nparr"],
+             "vset_1": ["list", "set", "tuple", "frozenset", "list_dup", "gen", "npint", "nparr"],
              "vset_k": ["list", "rlist", "set", "tuple", "gen", "npint"], "modes": ALL5, "minor": ALL5, "export": ["length", "attr_dense"]}
 PLAN_MID = {"p2p_sub": 3, "vset_sub": 3, "p2p_1": ["int", "list", "set"], "p2p_k": ["list", "set"],
             "vset_1": ["list", "set"], "vset_k": ["list", "set"], "modes": STD4, "minor": STD4, "export": ["length"]}
@@ -132,16 +135,16 @@ PLAN_GRID = {"p2p_sub": 1, "vset_sub": 2, "p2p_1": ["int"], "p2p_k": ["list"], "
 
 # HISTORIES: one targets object and one weights object serve every call of a history (all start vertices of a component,
 # then the first start again). forms_1 / forms_k: collection forms of one / several targets; vset_skip: forms not handed to
-# shortest_path_to_vertex_set (a one-element collection of numpy integers: the documented type of a single target is int);
+# shortest_path_to_vertex_set (a bare integer: it takes collections only);
 # sub: every target subset of a component up to this size (+ the whole component); schedules: which entry points are called
 # per start ("mixed": all of them in turn on the same objects); export: weight modes whose "mixed" history exports the polyline
-HIST_FORMS_1 = ["int", "list", "tuple", "set", "frozenset", "dict_keys", "npint", "nparr"]
+HIST_FORMS_1 = ["int", "npscalar", "list", "tuple", "set", "frozenset", "dict_keys", "npint", "nparr"]
 HIST_FORMS_K = ["list", "tuple", "set", "frozenset", "dict_keys", "npint", "nparr"]
 
 
 def _hplan(sub, p2p, vset, mixed, export):
     """schedules: schedule -> weight modes in which it is run ("border" = border queries alone, run in the modes of "mixed")"""
-    return {"sub": sub, "forms_1": HIST_FORMS_1, "forms_k": HIST_FORMS_K, "vset_skip_1": ["int", "npint", "nparr"],
+    return {"sub": sub, "forms_1": HIST_FORMS_1, "forms_k": HIST_FORMS_K, "vset_skip_1": ["int", "npscalar"],
             "schedules": {"p2p": p2p, "set": vset, "mixed": mixed}, "modes": [m for m in ALL5 if m in p2p + vset + mixed],
             "export": export}
 
@@ -548,6 +551,9 @@ def _judge_polyline(mc, pm, paths):
 def _form_obj(form, T):
     if form == "int":
         return T[0]
+    if form == "npscalar":
+        import numpy as np
+        return np.int64(T[0])
     if form == "list":
         return list(T)
     if form == "rlist":
@@ -614,7 +620,7 @@ def _wsnap(wobj, m):
 
 def _ctor(form, T):
     T = list(T)
-    return {"int": repr(T[0]), "list": repr(T), "rlist": repr(T[::-1]), "set": f"set({T})", "tuple": repr(tuple(T)),
+    return {"int": repr(T[0]), "npscalar": f"numpy.int64({T[0]})", "list": repr(T), "rlist": repr(T[::-1]), "set": f"set({T})", "tuple": repr(tuple(T)),
             "frozenset": f"frozenset({T})", "dict_keys": f"dict.fromkeys({T}).keys()", "list_dup": repr(T + T[:1]),
             "gen": f"(t for t in {T})", "npint": f"[numpy.int64(t) for t in {T}]",
             "nparr": f"numpy.array({T}, dtype=numpy.int64)"}[form]
